@@ -222,9 +222,19 @@ theorem setCurFrame_spec (g : Frame → Frame) : ∀ (c0 : CP),
 def FFPost (c0 : CP) (s : State) : Prop :=
   VInv s ∧ cpf s = { c0 with frames := #[] } ∧ (curF s).fn = (c0.frames[c0.curFrame]!).fn
 
+/-- before a call: the callee slot `stack[sp-numArgs-1]` was read, so it is a valid index -/
+def CallPre (numArgs : Int) (s : State) : Prop :=
+  VInv s ∧ 0 ≤ s.sp - numArgs - 1 ∧ 0 ≤ numArgs ∧ curFn s ≠ none
+
+def CallOk (c0 : CP) (r : Except OpErr Unit) (s : State) : Prop :=
+  VInv s ∧ s.noPanic = c0.noPanic ∧ s.err = c0.err ∧
+    (match r with | .ok _ => 0 ≤ s.sp ∧ curFn s ≠ none | .error _ => True)
+
+def CallExc (c0 : CP) (s : State) : Prop := VInv s ∧ s.noPanic = c0.noPanic
+
 macro "vm_fvc" : tactic => `(tactic| (
-  try simp only [wrap_iff, StepOk, StepExc, StepPre, VInvB, FFPost, ThrowOk, ThrowExc, ThrowPre, RestSame, VInv, curFn, curF,
-    FailOk, FailExc] at *
+  try simp only [wrap_iff, StepOk, StepExc, StepPre, VInvB, FFPost, ThrowOk, ThrowExc, ThrowPre, RestSame, CallPre, CallOk,
+    CallExc, VInv, curFn, curF, FailOk, FailExc] at *
   intros
   try simp only [cpf, cpx, cp, CP.mk.injEq] at *
   try simp_all +zetaDelta [stackSize, fn_setLast, fn_popHandler]
@@ -307,5 +317,52 @@ theorem execReturn_ok (np : Bool) : StepSpec np execReturn := by
     have hb : (s0.frameIndex - 2).toNat < frameSize := by simp only [frameSize] at *; omega
     have := h.1.cur _ hb
     simp_all)
+
+/-! ### calls -/
+
+/-- `popArgs n` only lowers `sp` (and clears slots); every completed iteration proves `0 ≤ sp` -/
+theorem popArgs_spec (n : Nat) : ∀ (c0 : CP),
+    ⦃fun s => ⌜c0 = cp s ∧ 0 ≤ s.sp⌝⦄ popArgs n
+    ⦃post⟨fun _ s => ⌜cpx s = { c0 with sp := 0, ip := 0 } ∧ 0 ≤ s.sp⌝,
+          fun _ s => ⌜cpx s = { c0 with sp := 0, ip := 0 }⌝⟩⦄ := by
+  apply triple_of_fixed; intro s0 hsp
+  mvcgen [popArgs, getSp, setSp, getS, modS, stackSet, UgoVerif.VM.panic]
+  invariants
+  · post⟨fun _ s => ⌜cpx s = cpx s0 ∧ 0 ≤ s.sp⌝, fun _ s => ⌜Wrap (cpx s = { cp s0 with sp := 0, ip := 0 })⌝⟩
+  all_goals (try simp only [wrap_iff] at *)
+  all_goals (try simp only [cpx, cp, CP.mk.injEq] at *)
+  all_goals (try simp_all +zetaDelta [stackSize])
+  all_goals (try omega)
+
+/-- entering the frame `fi` of a called function -/
+theorem enterFrame_spec (fi : Nat) (fa : Addr) (free : Option (List Addr)) (bp : Int) : ∀ (c0 : CP),
+    ⦃fun s => ⌜c0 = cp s ∧ (VInv s ∧ fi < frameSize)⌝⦄ enterFrame fi fa free bp
+    ⦃post⟨fun _ s => ⌜VInv s ∧ curFn s = some fa ∧ cpf s = { c0 with frames := #[], curFrame := fi }⌝,
+          fun _ _ => ⌜False⌝⟩⦄ := by
+  apply triple_of_fixed
+  intro s0 ⟨hv, hfi⟩
+  mvcgen [enterFrame, modS]
+  subst_vars
+  rename_i s t
+  rw [wrap_iff]
+  have hsz : fi < s.frames.size := by rw [hv.1]; exact hfi
+  refine ⟨?_, ?_, by simp +zetaDelta [cpf, cp]⟩
+  · show CInv (s.frames.modify fi _) fi s.stack.size
+    exact (hv.modify fi _ (frameOK_noHandlers rfl)).cur fi hfi
+  · show ((s.frames.modify fi _)[fi]!).fn = some fa
+    rw [get!_modify_self _ _ _ hsz]
+
+set_option maxHeartbeats 6400000 in
+theorem callCompiled_spec (fa : Addr) (numArgs flags : Int) : ∀ (c0 : CP),
+    ⦃fun s => ⌜c0 = cp s ∧ CallPre numArgs s⌝⦄ callCompiled fa numArgs flags
+    ⦃post⟨fun r s => ⌜CallOk c0 r s⌝, fun _ s => ⌜CallExc c0 s⌝⟩⦄ := by
+  apply triple_of_fixed; intro s0 hpre
+  have sc := setCurFrame_spec
+  have cd := fun hi lo c0 => clearDown_spec hi lo c0 False
+  have ss := stackSlice_spec
+  have ef := enterFrame_spec
+  step_gen [callCompiled, sc, cd, ss, ef]
+  all_goals (first | (vm_fvc; done) | skip)
+  all_goals (vm_fvc; trace_state)
 
 end UgoVerif.Proofs.VM
